@@ -143,8 +143,10 @@ pub fn run(rep: &mut Report, thorough: bool) {
                 let which_page = *rng.pick(&[0u64, pages - 1, anyp]);
                 let guard = rng.chance(1, 8);
                 let (sp_offset, guard_map) = if guard {
-                    let d = *rng.pick(&[1u64, 2, 255, 256, 257]);
-                    let gm = if rng.chance(1, 2) { d } else { 0 };
+                    // 300 / 1200 pages: an inaccessible mapping that extends MORE than the guard
+                    // distance above the stack pointer (nothing plausible within reach)
+                    let d = *rng.pick(&[1u64, 2, 255, 256, 257, 300, 1200]);
+                    let gm = if rng.chance(1, 2) || d >= 300 { d } else { 0 };
                     (-((d * PAGE) as i64) + in_page as i64, gm)
                 } else {
                     ((which_page * PAGE + in_page) as i64, 0)
